@@ -190,12 +190,14 @@ class DampedOscillationMegacomplex(Megacomplex):
 
 @nb.jit(nopython=True, parallel=True)
 def calculate_damped_oscillation_matrix_no_irf(matrix, frequencies, rates, axis):
+    # the clp labels are [cos_1, ..., cos_n, sin_1, ..., sin_n] (same layout as with an irf)
     idx = 0
+    number_of_oscillations = frequencies.size
     for frequency, rate in zip(frequencies, rates):
         osc = np.exp(-rate * axis - 1j * frequency * axis)
         matrix[:, idx] = osc.real
-        matrix[:, idx + 1] = osc.imag
-        idx += 2
+        matrix[:, idx + number_of_oscillations] = osc.imag
+        idx += 1
 
 
 def calculate_damped_oscillation_matrix_gaussian_irf_on_index(
